@@ -169,6 +169,19 @@ def run(prog, R):
             ps = [p for p in SymExec(prog, b).paths() if "__diverged__" not in p.env]
             ok = bool(ps) and all(show(deep_strip(p.env.get(0))).startswith("Option::Some") for p in ps)
             R.ob("C18.2-lock-step", "parse_one_included returns Some on every path", ok, b.at, f"{len(ps)} paths")
+            # the text that is parsed for an included file is the text read from it, on every path where the read
+            # succeeded (no path substitutes another or an empty text without an include error)
+            badt, nt = [], 0
+            for p in ps:
+                if any(c[0].endswith("io::Error::kind") or c[0].endswith("Error::kind") for c in p.calls):
+                    continue
+                nt += 1
+                pc = [c for c in p.calls if "parse_source_and_includes" in c[0]]
+                if len(pc) != 1 or "read_to_string(" not in show(deep_strip(pc[0][1][0])):
+                    if "IncludeError" not in show(deep_strip(p.env.get(0))):
+                        badt.append([show(deep_strip(c[1][0]))[:80] for c in pc] or "not parsed")
+            R.ob("C18.2-lock-step", "the text parsed for an included file is the text read from it", nt >= 1 and not badt, b.at,
+                 f"{nt} path(s) with a successful read" if nt >= 1 and not badt else f"a path with a successful read parses {badt[:2]} instead of the file's text, without an include error: the statements of that include silently vanish from the program")
             # C18.3: read error -> IncludeError with the io kind
             errp = [p for p in ps if any(c[0].endswith("io::Error::kind") or c[0].endswith("Error::kind") for c in p.calls)]
             ok3 = bool(errp) and all("IncludeError" in show(deep_strip(p.env.get(0))) for p in errp) and all(not any("parse_source_and_includes" in c[0] for c in p.calls) for p in errp)
@@ -187,20 +200,61 @@ def run(prog, R):
                     bad.append((std, len(nx)))
         R.ob("C18.2-lock-step", "analyser advances included_iter once per non-stdgates include", not bad and n >= 2, ana.at, f"{n} include paths; {bad[:2]}")
         # C18.3 in the analyser: include_error => from_io_error on the path node; C12.3 swap pairing
-        frm = any(c[0].endswith("SemanticErrorKind::from_io_error") for p in ps for c in p.calls)
-        R.ob("C18.3-failure-is-diagnostic", "include_error => insert_error(from_io_error(kind), path node)", frm, ana.at, "")
+        # on every path: include_error() is Some  <=>  from_io_error + insert_error and no recursive analysis;
+        # None <=> the recursive call; both keep the include's error list (push_errors_from_included_file)
+        badi, ni = [], 0
+        for p in ps:
+            if "__diverged__" in p.env:
+                continue
+            ie = [c for t, c in conds_of(p) if isinstance(t, tuple) and t[0] == "discr" and "include_error(" in show(t)]
+            if not ie:
+                continue
+            ni += 1
+            some = ie[0] == ("eq", 1) or (ie[0][0] == "ne" and 0 in (ie[0][1] if isinstance(ie[0][1], tuple) else (ie[0][1],)))
+            nm = [c[0] for c in p.calls]
+            has_from = any(x.endswith("SemanticErrorKind::from_io_error") for x in nm)
+            after = nm[max(i for i, x in enumerate(nm) if x.endswith("include_error")):]
+            has_ins = any(x.endswith("Context::insert_error") for x in after)
+            rec = any(x == ana.npath for x in nm)
+            keep = any(x.endswith("Context::push_errors_from_included_file") for x in after)
+            if some and not (has_from and has_ins and not rec and keep):
+                badi.append(("read failure", has_from, has_ins, rec, keep))
+            if not some and not (rec and keep and not has_from):
+                badi.append(("readable file", has_from, has_ins, rec, keep))
+        R.ob("C18.3-failure-is-diagnostic", "include_error => insert_error(from_io_error(kind), path node)", ni >= 2 and not badi, ana.at,
+             f"{ni} include paths: a read failure is diagnosed and not analysed, a readable file is analysed; both keep the file's error list" if ni >= 2 and not badi else
+             f"{ni} include paths; offending (case, from_io_error, insert_error, recursive analysis, list kept): {badi[:3]}")
         reps = [bi for bi, t in ana.calls() if (ana.callee_of(t) or "").endswith("mem::replace")]
         dom = ana.dominators()
         swaps = [bi for bi, t in ana.calls() if (ana.callee_of(t) or "").endswith(("mem::swap", "mem::take", "mem::replace"))]
         okr = len(reps) == 2 and len(swaps) == 2 and reps[0] in dom[reps[1]] and all(reps[1] in dom[e] for e in ana.exits())
         R.ob("C18.2-per-file-error-lists", "the error list is swapped in at entry and swapped back before every return", okr, ana.at, f"mem::replace call blocks {reps}; all swap/take/replace call blocks {swaps} (exactly the entry/exit pair may exchange the error list)")
+        # one item per include: the value taken from included_iter is the file whose path labels the list, whose read
+        # error is tested and which is analysed recursively (no other way of choosing the file, e.g. a search by name)
+        items = set()
+        for p in ps:
+            if "__diverged__" in p.env:
+                continue
+            for c in p.calls:
+                if c[0].endswith("SemanticErrorList::new"):
+                    t_ = deep_strip(c[1][0])
+                    while isinstance(t_, tuple) and t_[0] == "call" and t_[1].endswith(("to_path_buf", "file_path", "to_owned", "clone", "into")) and t_[2]:
+                        t_ = deep_strip(t_[2][0])
+                    items.add(("list label", show(t_)))
+                elif c[0] == ana.npath or c[0].endswith("include_error"):
+                    items.add(("analysed" if c[0] == ana.npath else "read error tested", show(deep_strip(c[1][0]))))
+        vals = {v for _, v in items}
+        one = len(vals) == 1 and {k for k, _ in items} == {"list label", "analysed", "read error tested"} and all(v.endswith("next(iter(included(parsed_source)))") or "Iterator>::next(" in v and "find" not in v and "unwrap_or" not in v for v in vals)
+        R.ob("C18.2-per-file-error-lists", "the file taken from included_iter is the one labelled, tested and analysed", one, ana.at,
+             f"{sorted(items)}"[:300] if one else f"the list label, the read-error test and the recursive analysis do not all use the single item taken from included_iter: {sorted(items)[:4]}: an include can be paired with another file's pre-parsed source")
         els = {show(c[1][0]) for p in ps for c in p.calls if c[0].endswith("SemanticErrorList::new")}
         # the path is read from the item the analyser has just taken from included_iter (not from the including file)
         el = bool(els) and all("file_path(" in e and "next(" in e and "file_path(parsed_source" not in e and "file_path(arg" not in e for e in els)
         R.ob("C18.2-per-file-error-lists", "the list for an included file is created with that file's path", el, ana.at, f"SemanticErrorList::new arguments on all paths: {sorted(els)[:3]}" if el else
              f"an error list for an included file is created with {sorted(els)[:2]}: not the path of the file taken from included_iter, so its diagnostics are attributed to (and rendered against the text of) another file")
-        pe = any(c[0].endswith("Context::push_errors_from_included_file") for p in ps for c in p.calls)
-        R.ob("C18.2-per-file-error-lists", "included diagnostics are kept in the parent's include list", pe, ana.at, "")
+        pe = [any(c[0].endswith("Context::push_errors_from_included_file") for c in p.calls) for p in ps
+              if "__diverged__" not in p.env and any(c[0].endswith("SemanticErrorList::new") for c in p.calls)]
+        R.ob("C18.2-per-file-error-lists", "included diagnostics are kept in the parent's include list", bool(pe) and all(pe), ana.at, f"{len(pe)} path(s) that create a list for an included file; each hands it to push_errors_from_included_file")
         # C18.5 stdgates without a file
         bad5 = []
         for p in ps:
